@@ -9,36 +9,40 @@ import (
 	"time"
 )
 
-// Patience scales a waiting bound by how overloaded the machine is (load average per core, read once per process;
+// Patience scales a waiting bound by how overloaded the machine is (load average per core, re-read every few seconds;
 // between 1 and 5, or VERIF_PATIENCE).  Waiting bounds only ever decide how long a missing reaction is waited for:
 // on a machine running several checks at once the real code is slower, not different.
 func Patience(d time.Duration) time.Duration {
-	patienceOnce.Do(func() {
-		patienceFactor = 1
+	patienceMu.Lock()
+	if time.Since(patienceAt) > 5*time.Second {
+		patienceAt = time.Now()
+		f := 1.0
 		if v := os.Getenv("VERIF_PATIENCE"); v != "" {
-			if f, err := strconv.ParseFloat(v, 64); err == nil && f >= 1 {
-				patienceFactor = f
-				return
+			if x, err := strconv.ParseFloat(v, 64); err == nil && x >= 1 {
+				f = x
 			}
-		}
-		if b, err := os.ReadFile("/proc/loadavg"); err == nil {
-			if f := strings.Fields(string(b)); len(f) > 0 {
-				if l, err := strconv.ParseFloat(f[0], 64); err == nil {
-					patienceFactor = l / float64(runtime.NumCPU())
+		} else if b, err := os.ReadFile("/proc/loadavg"); err == nil {
+			if fl := strings.Fields(string(b)); len(fl) > 0 {
+				if l, err := strconv.ParseFloat(fl[0], 64); err == nil {
+					f = l / float64(runtime.NumCPU())
 				}
 			}
+			if f < 1 {
+				f = 1
+			}
+			if f > 5 {
+				f = 5
+			}
 		}
-		if patienceFactor < 1 {
-			patienceFactor = 1
-		}
-		if patienceFactor > 5 {
-			patienceFactor = 5
-		}
-	})
-	return time.Duration(float64(d) * patienceFactor)
+		patienceFactor = f
+	}
+	f := patienceFactor
+	patienceMu.Unlock()
+	return time.Duration(float64(d) * f)
 }
 
 var (
-	patienceOnce   sync.Once
-	patienceFactor float64
+	patienceMu     sync.Mutex
+	patienceAt     time.Time
+	patienceFactor = 1.0
 )
